@@ -46,12 +46,13 @@ def run(ctx):
         "distinct = distinct op lines with a non-empty assignment")
     concrete = [d for d in dis if d.get("kind") == "disagreement" and not d["holds_on_impl"]]
     others = [d for d in dis if d not in concrete]
+    recorded = 0
     for d in concrete[:50]:
-        ctx.violation({"kind": "input", "input": d["op"], "actual": d["impl"], "expected": d["model"],
+        recorded += ctx.violation({"kind": "input", "input": d["op"], "actual": d["impl"], "expected": d["model"],
                        "correspondence": d["correspondence"],
                        "monitor": "C14 monitor (Spec/GroupAssign: cover / only subscribers / balance / shape / rack bound) is false on the implementation's output"},
                       True, signature="%s => %s" % (d["op"], d["impl"]))
-    if (broken or others) and not concrete:
+    if (broken or others) and recorded == 0:
         ctx.violation({"kind": "obligation", "broken": broken, "disagreements": others[:20],
                        "note": "a proof obligation or the correspondence no longer checks; the search over %d generated cases found no input on which the property monitor fails" % ctx.coverage["evaluations"]},
                       False, signature="obligation " + str(broken)[:300])
@@ -60,4 +61,4 @@ def run(ctx):
             ctx.notes.append("also broken: " + str(b)[:500])
 
 
-DRIVER_ARGS = ["norack"]
+DRIVER_ARGS = []
